@@ -9,7 +9,7 @@
 #define MAXHEAPS 12
 #define MAXARENAS 4
 
-typedef struct { void* p; int id; size_t req, us, wr; uint32_t gen; int heap; int zl; size_t al, off; int big; } blk_t;
+typedef struct { void* p; int id; size_t req, us, wr; uint32_t gen; int heap; int zl; size_t al, off; int big; int pin; } blk_t;   /* pin: a thread is using the block in a call: others must not pick it */
 typedef struct { mi_heap_t* hp; int id; int alive; int arena; int descid; } hp_t;
 typedef struct { mi_arena_id_t aid; int id; void* start; size_t size; int excl; } ar_t;
 
@@ -78,8 +78,8 @@ static int heap_idx_of_id(int id) { for (int i = 0; i < MAXHEAPS; i++) if (hps[i
 
 static int pick_live(void) {   /* random used slot or -1 */
   if (nslots_used == 0) return -1;
-  for (int tries = 0; tries < 64; tries++) { int s = (int)vf_randn(MAXSLOTS); if (slots[s].p) return s; }
-  for (int s = 0; s < MAXSLOTS; s++) if (slots[s].p) return s;
+  for (int tries = 0; tries < 64; tries++) { int s = (int)vf_randn(MAXSLOTS); if (slots[s].p && !slots[s].pin) return s; }
+  for (int s = 0; s < MAXSLOTS; s++) if (slots[s].p && !slots[s].pin) return s;
   return -1;
 }
 /* a free slot, reserved for the caller (id = -1) until set_block / unreserve: under the scheduler another thread may run
